@@ -229,4 +229,14 @@ theorem C10_wiring2 :
     Sso.Generated.skel_cognito_verifyEmailWithAccessToken =
       ["if{", "return", "}", "call:GetUserProfile", "if{", "return", "}", "if{", "call:New", "return", "}", "return"] := by decide
 
+/-- Tie (T1), third wave: the constructors and option functions that hand configured values to the components this property
+speaks about (auth_newProvider, auth_SetProvider, auth_GetRedirectURI). -/
+theorem C10_wiring3 :
+    Sso.Generated.skel_auth_newProvider =
+      ["switch{", "case providers.GoogleProviderName{", "call:NewGoogleProvider", "if{", "return", "}", "call:NewFillCache", "store:googleProvider.GroupsCache", "call:NewSingleFlightProvider", "}", "case providers.OktaProviderName{", "call:NewOktaProvider", "if{", "return", "}", "call:NewGroupCache", "call:NewSingleFlightProvider", "}", "case providers.AmazonCognitoProviderName{", "call:NewAmazonCognitoProvider", "if{", "return", "}", "call:NewFillCache", "store:amazonCognitoProvider.GroupsCache", "call:NewSingleFlightProvider", "}", "case \"test\"{", "call:NewTestProvider", "return", "}", "default{", "call:Errorf", "return", "}", "}", "return"] ∧
+    Sso.Generated.skel_auth_SetProvider =
+      ["func{", "store:a.provider", "return", "}", "return"] ∧
+    Sso.Generated.skel_auth_GetRedirectURI =
+      ["call:String", "return"] := by decide
+
 end Sso.AuthN
